@@ -24,9 +24,11 @@ Vocabulary (`Cjet.Lemmas.DaemonC08*`):
                       value notify/offer build for element `e`;
 * `ElemIn s path fg`— some peer of `s` owns an element with this path and these fetch groups;
 * `AV p`            — `(p.conn, p.user, p.fetchGroups, p.setGroups, p.callGroups)`;
-* `VerifiedAuth u c`— unit `u` is a request of connection `c` whose "user"/"password" members name
-                      a record of the credential table (case-folded lookup, as the code does) with
-                      exactly that password and an "auth" object;
+* `VerifiedAuth cfg u p'` — unit `u` is a request of the connection of `p'` whose "user"/"password"
+                      members name a record of the credential table (case-folded lookup, as the
+                      code does) with exactly that password and an "auth" object, and the user
+                      name and three group words of `p'` are the presented name and what
+                      get_groups derives from that object;
 * `methodOf req`    — the string "method" member; `credentialsOk us u pw` — verdict of credentials_ok;
 * `Inv cfg s`       — the invariant (`FInv`: unique connection numbers, fetcher-table slots only for
                       live subscriptions with access; `AuthInv`: theorem 2) — `reachable_inv`.
@@ -119,15 +121,15 @@ theorem credential_table_stable (cfg : Config) (us : List User) (s : State) (hr 
 
 /-- The history part: across one operation the authentication fields of a peer stay as they were,
     or the peer is the fresh one of a `connect` (all unset), or the operation contains a request
-    of that very connection presenting the stored password of a credential record
-    (`VerifiedAuth`). -/
+    of that very connection presenting the stored password of a credential record, and the
+    peer's user name and group words are exactly those of that record (`VerifiedAuth`). -/
 theorem groups_change_only_by_verified_password (cfg : Config) (us : List User) (s : State)
     (hr : Reach cfg us s) (op : Op) :
     ∀ p' ∈ (step cfg s op).1.peers,
       (∃ p ∈ s.peers, AV p' = AV p) ∨
       (∃ ws il a, op = .connect p'.conn ws il a ∧ p'.user = none ∧ p'.fetchGroups = 0 ∧
         p'.setGroups = 0 ∧ p'.callGroups = 0) ∨
-      (∃ u ∈ unitsOf cfg s op, VerifiedAuth u p'.conn) :=
+      (∃ u ∈ unitsOf cfg s op, VerifiedAuth cfg u p') :=
   step_auth hr.inv op
 
 example : userCheck (step exCfg exS (.message 3 (some exGoodAuth) {})).1 3 true = true := by decide +kernel
